@@ -310,7 +310,7 @@ pub fn run(ctx: &Ctx) -> Report {
         rep.require("multi_packet_commands", 3);
     }
     for k in ["end_in_header_1", "end_in_header_2", "end_in_header_3", "end_on_boundary", "end_in_payload", "reads_delivering_several_commands", "commands_compared"] {
-        if !ctx.miri && ctx.only.is_none() {
+        if ctx.strict() {
             rep.require(k, 1);
         }
     }
